@@ -729,6 +729,11 @@ Again:
 		b = nil
 
 	case recordTypeHandshake:
+		// A handshake record where ChangeCipherSpec is expected is never
+		// acceptable: only application data can give way to a renegotiation.
+		if typ != want && want != recordTypeApplicationData {
+			return c.in.setErrorLocked(c.sendAlert(alertUnexpectedMessage))
+		}
 		// TODO(rsc): Should at least pick off connection close.
 		if typ != want && !(c.isClient && c.config.Renegotiation != RenegotiateNever) {
 			return c.in.setErrorLocked(c.sendAlert(alertNoRenegotiation))
